@@ -52,6 +52,10 @@ class TLCResult:
         m = re.findall(r"(\d+) states generated, (\d+) distinct states found", out)
         self.generated = int(m[-1][0]) if m else 0
         self.distinct = int(m[-1][1]) if m else 0
+        if not m:
+            m2 = re.findall(r"The number of states generated: (\d+)", out)      # -simulate
+            if m2:
+                self.generated = int(m2[-1])
         self.violated = re.findall(r"Invariant (\S+) is violated", out)
         self.errors = [l for l in out.splitlines() if l.startswith("Error:")]
         self.timed_out = rc == 124
@@ -370,11 +374,46 @@ def parse_dump(path):
 JUDGE_BLOCKS = 64
 
 
+JUDGE_CHUNK = 60000
+JUDGE_BYTES = 70 * 1000 * 1000
+
+
 def judge(d, module, events, timeout=900, name=None, heap="12g", extra_env=None, workers=None):
     """Write events as ndjson, let TLC evaluate module's Clauses on every event, return
-    (TLCResult, {index(0-based): [failed clause names]}).  Raises MachineryError unless every
-    event was consumed."""
+    (TLCResult, {index(0-based): [failed clause names]}).  Large traces are judged in chunks (the
+    deserialised trace has to fit TLC's heap).  Raises MachineryError unless every event was consumed."""
     name = name or module
+    sizes = [len(json.dumps(e, separators=(",", ":"))) + 1 for e in events] if len(events) > 2000 else []
+    if len(events) > JUDGE_CHUNK or sum(sizes) > JUDGE_BYTES:
+        cuts, n, b = [0], 0, 0
+        for k, sz in enumerate(sizes):
+            if n >= JUDGE_CHUNK or b + sz > JUDGE_BYTES:
+                cuts.append(k)
+                n, b = 0, 0
+            n += 1
+            b += sz
+        cuts.append(len(events))
+        total = None
+        bad = {}
+        for c in range(len(cuts) - 1):
+            lo, hi = cuts[c], cuts[c + 1]
+            if lo == hi:
+                continue
+            res, bb = _judge_one(d, module, events[lo:hi], timeout, "%s_part%d" % (name, c), heap, extra_env, workers)
+            for k, val in bb.items():
+                bad[lo + k] = val
+            if total is None:
+                total = res
+            else:
+                total.generated += res.generated
+                total.distinct += res.distinct
+                total.wall += res.wall
+                total.out += res.out
+        return total, bad
+    return _judge_one(d, module, events, timeout, name, heap, extra_env, workers)
+
+
+def _judge_one(d, module, events, timeout, name, heap, extra_env, workers):
     path = os.path.join(d, name + ".ndjson")
     write_ndjson(path, events)
     env = {"TRACE_FILE": path}
@@ -388,6 +427,10 @@ def judge(d, module, events, timeout=900, name=None, heap="12g", extra_env=None,
     want = len(events) + JUDGE_BLOCKS + 1
     if res.distinct != want or res.timed_out:
         raise MachineryError("%s: %d of %d trace states reached (timeout=%s)" % (name, res.distinct, want, res.timed_out))
+    try:
+        os.remove(path)
+    except OSError:
+        pass
     return res, bad
 
 
